@@ -23,6 +23,7 @@ PARAM_KINDS = ('bool', 'int', 'decimal', 'str', 'longstr', 'bytes', 'date', 'tim
                'json', 'intarray', 'strarray')      # exactly comparable (float and float arrays are not)
 
 DECIMAL_PS = [None, (5, 2), (1, 1), (10, 4), (15, 5), (18, 6), (28, 10)]   # None = Pony default (12, 2)
+WIDE_CONTEXT = decimal.Context(prec=80)
 FLOAT_DAYS_LIMIT = 65536      # 2**16 days: above it one ulp of a double counting days exceeds one microsecond
 
 
@@ -259,8 +260,11 @@ def _strategies():
         sign = '-' if draw(st.booleans()) else ''
         text = '%s%d' % (sign, ip) if k == 0 else '%s%d.%0*d' % (sign, ip, k, fp)
         d = Decimal(text)
+        if len(d.quantize(Decimal(10) ** -s, context=WIDE_CONTEXT).as_tuple().digits) > p:
+            # rounding to the scale would carry into one digit more than the declared precision: outside the domain
+            d = Decimal('%s0.%0*d' % (sign, k, fp))
         if draw(st.integers(0, 9)) == 0:
-            d = d.normalize()      # e.g. Decimal('1E+2'): same number, positive exponent
+            d = d.normalize(WIDE_CONTEXT)      # e.g. Decimal('1E+2'): same number, positive exponent (never rounded)
         return d
 
     json_leaf = st.one_of(st.none(), st.booleans(), st.integers(-2 ** 70, 2 ** 70), st.integers(-100, 100),
